@@ -255,8 +255,8 @@ func vcNameOf(b bpv7.Bundle) string {
 }
 
 func vcConf(algo string, budget int) RoutingConf {
-	if algo == "mule" || algo == "mule_spray" {
-		inner := vcConf(map[string]string{"mule": "epidemic", "mule_spray": "spray"}[algo], budget)
+	if algo == "mule" || algo == "mule_spray" || algo == "mule_binary_spray" {
+		inner := vcConf(map[string]string{"mule": "epidemic", "mule_spray": "spray", "mule_binary_spray": "binary_spray"}[algo], budget)
 		return RoutingConf{Algorithm: "sensor-mule", SensorMuleConf: SensorNetworkMuleConfig{Algorithm: &inner, SensorNodeRegex: "^dtn://s[0-9]"}}
 	}
 	return RoutingConf{Algorithm: algo, SprayConf: SprayConfig{Multiplicity: uint64(budget)},
